@@ -205,13 +205,37 @@ def asserted(solver_obj):
     s = solver_obj._solver
     if isinstance(s, ghost.GhostSolver):
         return s.stack()
-    out = []
-    for f in s.assertions():
-        # debug mode: z3 shows assert_and_track(f, p) as Implies(p, f)
-        if z3.is_implies(f) and z3.is_const(f.arg(0)) and f.arg(0).decl().name().startswith("asst_"):
+    fs = list(s.assertions())
+    # debug mode: z3 shows assert_and_track(f, p) as Implies(p, f).  A tracking literal is recognised by its role, not
+    # by its name: a Boolean constant that is the antecedent of such top-level implications (a literal that also occurs
+    # inside the formulas is an unknown of the model as well: it is reported as a fact, which is what z3 assumes)
+    cands = [f for f in fs if z3.is_implies(f) and z3.is_const(f.arg(0)) and f.arg(0).decl().kind() == z3.Z3_OP_UNINTERPRETED]
+    if not cands or len(cands) != len(fs):
+        return fs  # not the diagnosis mode: there every assertion is tracked
+    inside = set()
+    seen = set()
+    todo = [f.arg(1) if any(f is c for c in cands) else f for f in fs]
+    while todo:
+        e = todo.pop()
+        if e.get_id() in seen:
+            continue
+        seen.add(e.get_id())
+        if z3.is_quantifier(e):
+            todo.append(e.body())
+            continue
+        if z3.is_const(e) and z3.is_bool(e) and e.decl().kind() == z3.Z3_OP_UNINTERPRETED:
+            inside.add(e.decl().name())
+        todo.extend(e.children())
+    out, forced = [], {}
+    for f in fs:
+        if any(f is c for c in cands):
+            # every check() assumes the tracking literals: `p => f` under the assumption p is f -- and p itself, which
+            # matters when p is also an unknown of the model
+            if f.arg(0).decl().name() in inside:
+                forced.setdefault(f.arg(0).decl().name(), f.arg(0))
             f = f.arg(1)
         out.append(f)
-    return out
+    return out + list(forced.values())
 
 
 def assertions_of(obj):
